@@ -160,7 +160,12 @@ fn make_tail(r: &mut crate::rng::Rng, ct: u8) -> (Vec<u8>, Tail) {
             (v, Tail::CcsBad)
         }
         0x15 => (vec![r.u8()], Tail::AlertLone),
-        _ => match r.below(6) {
+        _ => match r.below(7) {
+            6 => {
+                // a framed message that breaks one structural rule of the must-reject list
+                let k = r.usize(0, gen::REJECT_RULES - 1);
+                (gen::reject_catalogue(r, k).0, Tail::HsUnknownType)
+            }
             4 => {
                 // a Certificate in the TLS 1.3 layout (non-empty request context): in this crate's layout a chain cut short
                 let body = gen::tls13_certificate_body(r);
@@ -406,6 +411,28 @@ pub fn run(ctx: &mut Ctx) {
             let k = msgs.len() - 1;
             run_case(ctx, 0x16, 0x0303, &payload, &msgs[..k], payload.len() - last_start, if k == 0 { "bitflip-first-message-length" } else { "bitflip-last-message-length" }, Tail::HsLenLiesUp);
             ctx.count("length-bitflips");
+        }
+    });
+
+    // ------------------------------------------------ every rule of the must-reject list as the message after 0..3 valid ones
+    // (round 16: a rejection that is reported as nom Failure instead of Error is invisible on a lone message and makes
+    // many1 drop the valid messages before it)
+    ctx.floor("reject-rule-later.cases", 2000);
+    ctx.sweep("reject-rule-at-every-position", gen::REJECT_RULES as u64 * 4 * 16, |ctx, idx| {
+        let mut r = Rng::new(idx ^ 0x7e1ec7);
+        let rule = (idx as usize) % gen::REJECT_RULES;
+        let before = (idx as usize / gen::REJECT_RULES) % 4;
+        for _ in 0..6 {
+            let msgs: Vec<AMsg> = (0..before).map(|_| AMsg::Hs(gen::hs(&mut r, gen::TINY))).collect();
+            let mut payload = refenc::msgs_payload(&msgs);
+            let (bad, _name) = gen::reject_catalogue(&mut r, rule);
+            if payload.len() + bad.len() > 16640 {
+                continue;
+            }
+            payload.extend_from_slice(&bad);
+            ctx.count("reject-rule-later.cases");
+            ctx.count(&format!("reject-rule.{}", _name));
+            run_case(ctx, 0x16, gen::version(&mut r), &payload, &msgs, bad.len(), if before == 0 { "reject-rule-first" } else { "reject-rule-later" }, Tail::HsUnknownType);
         }
     });
 
